@@ -7,7 +7,13 @@ fn epoch_to_timestamp<V: ValT>(v: &V) -> Result<Timestamp, Error<V>> {
     let fail = || Error::str(format_args!("cannot convert {v} to time"));
     let val = match v.as_isize() {
         Some(i) => (i as i64).checked_mul(1000000).ok_or_else(fail)?,
-        None => (v.try_as_f64()? * 1000000.0) as i64,
+        None => {
+            let f = v.try_as_f64()?;
+            if !f.is_finite() {
+                return Err(fail());
+            }
+            (f * 1000000.0) as i64
+        }
     };
     Timestamp::from_microsecond(val).map_err(Error::str)
 }
@@ -27,6 +33,9 @@ fn timestamp_to_epoch<V: ValT>(ts: Timestamp, frac: bool) -> ValR<V> {
 fn array_to_datetime<V: ValT>(v: &[V]) -> Option<Result<DateTime, jiff::Error>> {
     let [year, month, day, hour, min, sec]: &[V; 6] = v.get(..6)?.try_into().ok()?;
     let sec = sec.as_f64()?;
+    if !sec.is_finite() {
+        return None;
+    }
     let i8 = |v: &V| -> Option<i8> { v.as_isize()?.try_into().ok() };
     Some(DateTime::new(
         year.as_isize()?.try_into().ok()?,
@@ -73,7 +82,11 @@ pub fn to_iso8601<V: ValT>(v: &V) -> Result<String, Error<V>> {
     let ts = if let Some(i) = v.as_isize() {
         Timestamp::from_second(i as i64)
     } else {
-        Timestamp::from_microsecond((v.try_as_f64()? * 1e6) as i64)
+        let f = v.try_as_f64()?;
+        if !f.is_finite() {
+            return Err(Error::str(format_args!("cannot convert {v} to time")));
+        }
+        Timestamp::from_microsecond((f * 1e6) as i64)
     };
     Ok(ts.map_err(Error::str)?.to_string())
 }
